@@ -277,6 +277,18 @@ impl Uni {
     }
 }
 
+/// every sequence of `len` operation indexes below `nops` (exhaustive small-scope enumeration)
+fn all_seqs(nops: usize, len: usize) -> std::vec::Vec<std::vec::Vec<usize>> {
+    let mut out = vec![];
+    let total = nops.pow(len as u32);
+    for mut k in 0..total {
+        let mut v = vec![];
+        for _ in 0..len { v.push(k % nops); k /= nops; }
+        out.push(v);
+    }
+    out
+}
+
 /// events of one trace
 struct Tr { ev: std::vec::Vec<String> }
 impl Tr {
@@ -382,6 +394,22 @@ fn run_binder(out: &mut Out, rng: &mut Rng) {
         }
         let n = tr.len();
         out.trace("binder/small", format!("{} {}", tb_header(), list(&tr.ev)), n);
+    }
+
+    // A'. thorough tier: EVERY sequence of 5 bind / unbind operations over 3 tokens
+    if thorough {
+        for seq in all_seqs(6, 5) {
+            let t = Tb::new(3);
+            let mut tr = Tr::new();
+            for op in seq {
+                let x = op % 3;
+                let (label, call, r) = if op < 3 { ("tb.bind", format!("TbBind {}", x), t.bind(x)) } else { ("tb.unbind", format!("TbUnbind {}", x), t.unbind(x)) };
+                let idx: std::vec::Vec<u32> = (0..(t.linked().len() as u32 + 1)).collect();
+                tr.push(out, label, &call, r, t.queries(true, &[0, 1, 2], &idx));
+            }
+            let n = tr.len();
+            out.trace("binder/exhaustive", format!("{} {}", tb_header(), list(&tr.ev)), n);
+        }
     }
 
     // B. histories around the bucket boundaries (BUCKET_SIZE, 2*BUCKET_SIZE)
@@ -615,6 +643,22 @@ fn run_docs(out: &mut Out, rng: &mut Rng) {
         }
         let n = tr.len();
         out.trace("docs/small", format!("{} {}", dm_header(), list(&tr.ev)), n);
+    }
+
+    // A'. thorough tier: EVERY sequence of 5 set / remove operations over 3 names
+    if thorough {
+        for seq in all_seqs(6, 5) {
+            let mut d = Dm::new();
+            let mut tr = Tr::new();
+            for (j, op) in seq.iter().enumerate() {
+                let n = (*op % 3) as u64;
+                let (label, (call, r)) = if *op < 3 { ("dm.set", d.set(n, 1 + j as u64, 2, j as u64, rng)) } else { ("dm.remove", d.remove(n)) };
+                let idx: std::vec::Vec<u32> = (0..d.count() + 1).collect();
+                tr.push(out, label, &call, r, d.queries(&[0, 1, 2], &idx, &[0, 1]));
+            }
+            let n = tr.len();
+            out.trace("docs/exhaustive", format!("{} {}", dm_header(), list(&tr.ev)), n);
+        }
     }
 
     // B. around the bucket boundaries
@@ -1138,6 +1182,22 @@ fn run_compliance(out: &mut Out, rng: &mut Rng) {
         let n = tr.len();
         out.trace("compliance/small", format!("{} {}", header, list(&tr.ev)), n);
     }
+    // thorough tier: EVERY sequence of 4 add / remove operations over 2 hooks x 2 modules
+    if thorough {
+        for seq in all_seqs(8, 4) {
+            let t = Cm::new(2);
+            let mut tr = Tr::new();
+            for op in seq {
+                let (h, m, add) = ((op % 2) as u64, (op / 2) % 2, op < 4);
+                let r = if add { unit_ok(t.c.try_add_module(&hook_of(h), &t.u.a[m])) } else { unit_ok(t.c.try_remove_module(&hook_of(h), &t.u.a[m])) };
+                let call = if add { format!("CmAdd {} {}", h, m) } else { format!("CmRemove {} {}", h, m) };
+                tr.push(out, if add { "cm.add" } else { "cm.remove" }, &call, r, t.queries(&[0, 1], &[0, 1]));
+            }
+            let n = tr.len();
+            out.trace("compliance/exhaustive", format!("{} {}", header, list(&tr.ev)), n);
+        }
+    }
+
     // MAX_MODULES per hook
     let nb = if thorough { 5 } else { 1 } * scale;
     for _ in 0..nb {
